@@ -476,6 +476,36 @@ def mateOps (n : Nat) (sops : List String) : G (List String) := do
     | none => pure ()
   return out
 
+/-- heavy pieces against a bare king, strong side to move, no mate in one: positions in which a
+    mate in two or three is near and every defence matters (false mate claims come from searches that
+    drop a defence) -/
+def mateSoonPosition : Nat → G (Option Spec.Position)
+  | 0 => return none
+  | tries + 1 => do
+    let mat ← pick [[Kind.queen], [Kind.rook], [Kind.rook, Kind.rook], [Kind.queen, Kind.rook], [Kind.queen, Kind.queen]]
+    let strong ← if ← chance 1 2 then pure Color.white else pure Color.black
+    let mut P : Spec.Position :=
+      { cells := Array.replicate 64 none, side := strong, wks := false, wqs := false, bks := false, bqs := false, ep := none }
+    let f ← below 8
+    let edge ← below 4
+    let wkr : Spec.Sq := match edge with | 0 => ⟨f, 0⟩ | 1 => ⟨f, 7⟩ | 2 => ⟨0, f⟩ | _ => ⟨7, f⟩
+    let sk : Spec.Sq := ⟨← below 8, ← below 8⟩
+    if sk == wkr then return ← mateSoonPosition tries
+    P := (P.put sk (some ⟨strong, .king⟩)).put wkr (some ⟨strong.opp, .king⟩)
+    for k in mat do
+      let s : Spec.Sq := ⟨← below 8, ← below 8⟩
+      if (P.at s).isNone then P := P.put s (some ⟨strong, k⟩)
+    if Spec.LegalPosition P && !(Spec.legalMoves P).isEmpty && !hasMateInOne P then return some P
+    else mateSoonPosition tries
+
+def mateSoonOps (n : Nat) (sops : List String) : G (List String) := do
+  let mut out : List String := []
+  for _ in [0:n] do
+    match ← mateSoonPosition 200 with
+    | some P => out := out ++ [s!"pos position fen {Spec.toFen P 0 1}"] ++ sops
+    | none => pure ()
+  return out
+
 /-- material for the retro-mate generator: every pair of "at most one minor piece each" and a few
     heavier sets — mates that need self-blocks and rim geometry, rare among random placements -/
 def retroSets : List (List Piece) := [
